@@ -274,8 +274,30 @@ def extract_traversal(scratch):
     def strip_derive(item):
         return "\n".join(l for l in item.split("\n") if not l.strip().startswith("#[derive"))
 
+    extra = {"BVHNode": [], "PreorderIter": []}
+    for sig_rx, res_from, res_to, ensures, owner in vs.EXTRA_FNS:
+        f = _slice_item(src, sig_rx, "fn " + sig_rx[:30])
+        fl = f.split("\n")
+        g = [fl[0].rstrip()[:-1].rstrip().replace(res_from, res_to) + MARK + "[sig]", "        ensures" + MARK]
+        for lab, cl in ensures:
+            g.append(f"            {cl}," + MARK + f"[{lab}]")
+        g.append("    {" + MARK + "[open]")
+        g += fl[1:]
+        kept = []
+        for l in g:
+            if MARK in l:
+                if l[l.index(MARK) + len(MARK):].startswith("[sig]"):
+                    kept.append(l[:l.index(MARK)].replace(res_to, res_from) + " {")
+                continue
+            kept.append(l)
+        if _norm("\n".join(kept)) != _norm(f):
+            raise Undecided("verus extraction: verbatim check failed for " + sig_rx)
+        extra[owner].append("\n".join(g))
+
     text = (vs.HEADER + "\n" + strip_derive(enum) + "\n\n" + strip_derive(struct) + "\n" + vs.GHOST
-            + "\nimpl<'a, T> PreorderIter<'a, T> {\n" + gen_fn + "\n}\n\n} // verus!\nfn main() {}\n")
+            + "\nimpl<T> BVHNode<T> {\n" + "\n\n".join(extra["BVHNode"]) + "\n}\n"
+            + "\nimpl<'a, T> PreorderIter<'a, T> {\n" + vs.ACCESSORS + "\n" + "\n\n".join(extra["PreorderIter"]) + "\n\n" + gen_fn
+            + "\n}\n\n} // verus!\nfn main() {}\n")
     return text, vs
 
 
@@ -295,7 +317,7 @@ def run_traversal(scratch, ob, tier, log):
         raise Undecided("verus produced no result for the traversal unit (timeout=%s)\n%s" % (to, out[-1500:]))
     verified, nerr = int(m.group(1)), int(m.group(2))
     errs = parse_errors(out, gen_lines, 0, 0)
-    labels = [lab for lab, _ in vs.ENSURES] + [vs.LOOP_ENSURES[0], vs.LOOP_DECREASES[0], "C13.traversal.inv", "C13.traversal.children_pushed", "C13.traversal.no_panic"] + list(getattr(vs, "THEOREMS", []))
+    labels = [lab for lab, _ in vs.ENSURES] + [vs.LOOP_ENSURES[0], vs.LOOP_DECREASES[0], "C13.traversal.inv", "C13.traversal.children_pushed", "C13.traversal.no_panic"] + list(getattr(vs, "THEOREMS", [])) + sorted({lab for f in vs.EXTRA_FNS for lab, _ in f[3]})
     failed, undecided = {}, []
     for e in errs:
         msg = e["msg"]
@@ -320,7 +342,9 @@ def run_traversal(scratch, ob, tier, log):
     for lab in labels:
         rec = {"obligation": ob["name"], "clause": lab, "backend": "verus", "kind": "deductive", "bound": None,
                "function": ("ghost theorem over the contract of PreorderIter::next (spec function step; no executable code)" if lab in getattr(vs, "THEOREMS", [])
-                            else "PreorderIter::next (verbatim extraction; AABB::intersects and BVHNode::aabb by contract)"),
+                            else "BVHNode::aabb (verbatim extraction)" if lab == "C13.traversal.node_box"
+                            else "PreorderIter::new (verbatim extraction)" if lab == "C13.traversal.starts_at_root"
+                            else "PreorderIter::next (verbatim extraction; AABB::intersects by contract over an uninterpreted hit predicate)"),
                "secs": round(secs, 2), "solver_s": round(secs, 2), "checks": verified}
         if lab in failed:
             rec["status"] = "failed"
